@@ -18,7 +18,7 @@ THEOREMS = ["c06_override_names", "c06_entry_point_set", "c06_override_independe
             "c06_forwarding", "c06_reply_forwarding"]
 
 
-def make_case(overrides, has_inst, has_migrate, reply_fn, replies, generic, given=None):
+def make_case(overrides, has_inst, has_migrate, reply_fn, replies, generic, given=None, order=None):
     c = Contract("Ctr", generics=["T"] if generic else [])
     for k in overrides:
         c.attrs.append(sv_override(k, "crate::custom_%s" % k, "Custom%sMsg" % k.capitalize()))
@@ -37,6 +37,10 @@ def make_case(overrides, has_inst, has_migrate, reply_fn, replies, generic, give
                                   [Arg("res", P("SubMsgResult")), Arg("p", P("Binary"))], ret, ctx_ty="ReplyCtx"))
         else:
             c.items.append(Method(reply_fn, [sv_msg("reply")], [Arg("reply", P("Reply"))], ret, ctx_ty="ReplyCtx"))
+    if order == "reversed":
+        c.items.reverse()
+    elif order is not None:
+        order.shuffle(c.items)
     ngiven = (1 if generic else 0) if given is None else given
     attr = "generics<%s>" % ", ".join(["u32"] * ngiven) if ngiven else ""
     coq = ("{| ep_overrides := %s; ep_has_inst := %s; ep_has_migrate := %s; ep_reply_fn := %s; "
@@ -46,7 +50,8 @@ def make_case(overrides, has_inst, has_migrate, reply_fn, replies, generic, give
         "None" if not reply_fn else "(Some %s)" % coq_string(reply_fn),
         "true" if replies else "false", 1 if generic else 0, ngiven)
     desc = {"overrides": list(overrides), "has_inst": has_inst, "has_migrate": has_migrate, "reply_fn": reply_fn,
-            "replies_feature": replies, "generic": generic, "given_generics": ngiven}
+            "replies_feature": replies, "generic": generic, "given_generics": ngiven,
+            "method_order": [m.name for m in c.items]}
     return {"desc": desc, "attr": attr, "item": c.rust_impl(), "coq": coq}
 
 
@@ -157,6 +162,10 @@ def gen_cases(run, rng, thorough):
                             order = list(sub)
                             rng.shuffle(order)
                             cases.append(make_case(order, True, has_migrate, reply_fn, replies, generic))
+                            # the declaration order of the methods is not to matter: reversed (reply before migrate) and shuffled twins
+                            if has_migrate or reply_fn:
+                                cases.append(make_case(order, True, has_migrate, reply_fn, replies, generic, order="reversed"))
+                                cases.append(make_case(order, True, has_migrate, reply_fn, replies, generic, order=rng))
     run.exhaustive = True
     # ordered lists with duplicates, rule-breaking programs
     extra = 400 if thorough else 60
@@ -164,7 +173,7 @@ def gen_cases(run, rng, thorough):
         n = rng.randint(0, 8)
         ov = [rng.choice(KINDS) for _ in range(n)]
         cases.append(make_case(ov, True, rng.random() < 0.5, rng.choice([None, "on_reply", "reply", "handle_it2"]),
-                               rng.random() < 0.5, rng.random() < 0.5))
+                               rng.random() < 0.5, rng.random() < 0.5, order=rng))
     for _ in range(30 if thorough else 10):
         ov = [rng.choice(KINDS) for _ in range(rng.randint(0, 3))]
         kind = rng.choice(["noinst", "generics", "badname"])
